@@ -221,5 +221,118 @@ theorem plain_states_raise_or_agree {α : Type} (hdr : List Nat) (blocks arrays 
     rw [← h0] at this; exact this
   exact run_agreesOutside hashRegion _ _ (agrees_of_prefix hashRegion h1 h2) prog hins
 
+section
+open HeaderReads
+
+/-- every range read `read_variant_headers` issues is one whole footer array -/
+theorem vhFold_fetches (h : HFile) (il : Nat) (ip : Bool) (fields : List Nat) :
+    ∀ acc : HSt × List (Nat × Nat),
+      (∀ f ∈ acc.2, ∃ x, f = (offsetOf h x, h.len)) →
+      ∀ f ∈ (fields.foldl (vhStep h il ip) acc).2, ∃ x, f = (offsetOf h x, h.len) := by
+  induction fields with
+  | nil => intro acc hacc; exact hacc
+  | cons g gs ih =>
+    intro acc hacc
+    simp only [List.foldl_cons]
+    apply ih
+    unfold vhStep
+    cases hg : arrayOf h g with
+    | none => exact hacc
+    | some k =>
+      by_cases hany : acc.1.vh.any (·.1 == g) = true
+      · simp only [hany, if_true]; exact hacc
+      · simp only [hany, Bool.false_eq_true, if_false]
+        intro f hf
+        rcases List.mem_append.mp hf with hf | hf
+        · rcases List.mem_append.mp hf with hf | hf
+          · exact hacc f hf
+          · by_cases hm : ((h.is3d && !(h.structured || ip)) && !acc.1.maskLoaded) = true
+            · rw [if_pos hm] at hf
+              simp only [List.mem_singleton] at hf
+              exact ⟨il, hf⟩
+            · rw [if_neg hm] at hf; cases hf
+        · simp only [List.mem_singleton] at hf
+          exact ⟨k, hf⟩
+
+/-- a fresh reader that loads any stored field issues at least one range read -/
+theorem vhFold_fetches_nonempty (h : HFile) (il : Nat) (ip : Bool) (fields : List Nat) :
+    ∀ acc : HSt × List (Nat × Nat),
+      (acc.2 ≠ [] ∨ ∃ g ∈ fields, (arrayOf h g).isSome = true ∧ acc.1.vh.any (·.1 == g) = false) →
+      (fields.foldl (vhStep h il ip) acc).2 ≠ [] := by
+  induction fields with
+  | nil =>
+    intro acc hacc
+    rcases hacc with hacc | ⟨g, hg, _⟩
+    · exact hacc
+    · cases hg
+  | cons g gs ih =>
+    intro acc hacc
+    simp only [List.foldl_cons]
+    apply ih
+    -- either the step already fetched, or the witness is still to come and still not loaded
+    by_cases hne : acc.2 ≠ []
+    · left
+      unfold vhStep
+      cases hg : arrayOf h g with
+      | none => exact hne
+      | some k =>
+        by_cases hany : acc.1.vh.any (·.1 == g) = true
+        · simp only [hany, if_true]; exact hne
+        · simp only [hany, Bool.false_eq_true, if_false]; simp
+    · rcases hacc with hacc | ⟨w, hw, hws, hwn⟩
+      · exact absurd hacc hne
+      · rcases List.mem_cons.mp hw with rfl | hw'
+        · left
+          unfold vhStep
+          cases hg : arrayOf h w with
+          | none => rw [hg] at hws; cases hws
+          | some k => simp only [hwn, Bool.false_eq_true, if_false]; simp
+        · by_cases hgw : g = w
+          · subst hgw
+            left
+            unfold vhStep
+            cases hg : arrayOf h g with
+            | none => rw [hg] at hws; cases hws
+            | some k => simp only [hwn, Bool.false_eq_true, if_false]; simp
+          · -- the step for g does not load w
+            unfold vhStep
+            cases hg : arrayOf h g with
+            | none => exact .inr ⟨w, hw', hws, hwn⟩
+            | some k =>
+              by_cases hany : acc.1.vh.any (·.1 == g) = true
+              · simp only [hany, if_true]; exact .inr ⟨w, hw', hws, hwn⟩
+              · simp only [hany, Bool.false_eq_true, if_false]
+                left; simp
+
+/-- a header look-up by a fresh reader on an unstructured file (irregular 3D, 2D): when it answers, it has read whole footer
+arrays — at least one -/
+theorem unstructured_header_fetches (h : HFile) (il t : Nat) (hs : h.structured = false) (hsto : hasStored h = true)
+    (o : HOut) (hok : (genTraceHeader h il HSt.init t false).2 = .ok o) :
+    o.fetches ≠ [] ∧ ∀ f ∈ o.fetches, ∃ x, f = (offsetOf h x, h.len) := by
+  unfold genTraceHeader at hok
+  by_cases hb : (h.is3d && !(decide (t < h.grid))) = true
+  · rw [if_pos hb] at hok; cases hok
+  rw [if_neg hb] at hok
+  simp only [hs, Bool.false_and, Bool.false_eq_true, if_false, HSt.init, Option.getD_none, Bool.not_false,
+    hsto, Bool.not_true] at hok
+  unfold readVariantHeaders at hok
+  simp only [hs, Option.getD_none, bne_self_eq_false, Bool.and_false, Bool.false_eq_true, if_false] at hok
+  by_cases hn : (lookup h (List.foldl (vhStep h il false) ({ includePadding := some false, maskLoaded := false, vh := [], tf := [] }, [])
+      (List.range h.tbl.length)).1.vh t).any (·.isNone) = true
+  · rw [if_pos hn] at hok; cases hok
+  · rw [if_neg hn] at hok
+    injection hok with hok
+    subst hok
+    simp only [List.nil_append]
+    constructor
+    · apply vhFold_fetches_nonempty
+      right
+      obtain ⟨g, hg1, hg2⟩ := List.any_eq_true.mp hsto
+      exact ⟨g, hg1, hg2, rfl⟩
+    · apply vhFold_fetches
+      intro f hf; cases hf
+
+end
+
 end WriteOrder
 end Sgz
